@@ -144,7 +144,7 @@ def run(tier):
         got["base"] = base
         return got
     rng = core.Rng(core.seed(), 4)
-    limit = 1500 if tier == "quick" else 30000
+    limit = 4000 if tier == "quick" else 30000
     jobs = []
     for idx, (c, i) in enumerate(zip(base["cases"], base["impl"])):
         if "ok" not in i:
